@@ -377,7 +377,7 @@ def run(pid, tier, seed, replay_path=None):
             if not bm.spawns_timeout_thread():
                 inconclusive.append("JobBroker::new does not spawn the timeout closure any more")
         elif pid == "C06":
-            res, sinfo = steploop.obligations(mir_text)
+            res, sinfo = steploop.obligations(mir_text, open(os.path.join(d, "sr", "src", "actor", "model_state.rs")).read())
             info["actor_step"] = sinfo
             for k, v in sinfo.items():
                 info["functions_encoded"].append(f"actor::model::ActorModel::{k} ({v['blocks']} basic blocks, {v['paths']} paths; MIR sha256 {hashlib.sha256((steploop.find(mir_text, k) or '').encode()).hexdigest()[:12]})")
@@ -738,6 +738,7 @@ impl Actor for P {
     fn on_msg(&self, _id: Id, state: &mut Cow<u32>, src: Id, msg: u8, o: &mut Out<Self>) {
         CALLS.fetch_add(1, Ordering::SeqCst);
         if !self.reacts || msg == 0 { return; }
+        if msg == 9 { o.send(src, 90); return; } // read-only request: replies without touching its state
         *state.to_mut() += msg as u32;
         o.send(src, msg + 1);
         o.send(Id::from(1usize), msg + 2);
@@ -748,6 +749,7 @@ impl Actor for P {
         CALLS.fetch_add(1, Ordering::SeqCst);
         *state.to_mut() += 100 + *timer as u32;
         o.send(Id::from(1usize), 50);
+        o.set_timer(*timer, std::time::Duration::from_secs(1)..std::time::Duration::from_secs(1)); // re-armed: must survive the consumption of the fired one
     }
     fn on_random(&self, _id: Id, state: &mut Cow<u32>, random: &u8, o: &mut Out<Self>) {
         CALLS.fetch_add(1, Ordering::SeqCst);
@@ -800,12 +802,19 @@ fn verif_actor_step_is_one_atomic_handler_step() {
         let r = m.next_state(&s0, ActorModelAction::Deliver { src: a1, dst: a0, msg: 0 });
         if !ordered && r.is_some() { bad("a delivery that changes nothing yields no transition on unordered networks"); }
         if ordered { if let Some(r) = r { if r.history != vec!["in Id(1)->Id(0) 0".to_string()] || *r.actor_states[0] != 0 { bad("a no-op delivery on an ordered network only consumes the message"); } } else { bad("a no-op delivery on an ordered network still consumes the message"); } }
+        // ---- Deliver 9: state untouched but a reply is sent: still a transition, and the hooks see in, then out
+        {
+            let m9 = model(if ordered { Network::new_ordered(vec![Envelope { src: a1, dst: a0, msg: 9u8 }]) } else { Network::new_unordered_nonduplicating(vec![Envelope { src: a1, dst: a0, msg: 9u8 }]) });
+            let s = m9.init_states().pop().unwrap();
+            let r = m9.next_state(&s, ActorModelAction::Deliver { src: a1, dst: a0, msg: 9 }).unwrap_or_else(|| bad("a delivery that sends something yields a transition"));
+            if r.history != vec!["in Id(1)->Id(0) 9".to_string(), "out Id(0)->Id(1) 90".to_string()] || *r.actor_states[0] != 0 { bad("history hooks see the received message first even when the actor's state is untouched"); }
+        }
         // ---- Timeout(1): fired timer consumed, other timer kept, one handler call, send recorded
         CALLS.store(0, Ordering::SeqCst);
         let s2 = m.next_state(&s0, ActorModelAction::Timeout(a0, 1)).unwrap_or_else(|| bad("timeout yields a transition"));
         if CALLS.load(Ordering::SeqCst) != 1 { bad("exactly one handler invocation per transition (timeout)"); }
         let t: Vec<u8> = { let mut v: Vec<u8> = s2.timers_set[0].iter().copied().collect(); v.sort(); v };
-        if t != vec![2] || *s2.actor_states[0] != 101 { bad("the fired timer is consumed and the new state installed"); }
+        if t != vec![1, 2] || *s2.actor_states[0] != 101 { bad("the fired timer is consumed BEFORE the commands are applied (a handler that re-arms it keeps it set) and the new state installed"); }
         if s2.history != vec!["out Id(0)->Id(1) 50".to_string()] { bad("a timeout records only its sends"); }
         // ---- SelectRandom: selected choice consumed, the other key kept
         CALLS.store(0, Ordering::SeqCst);
